@@ -705,18 +705,18 @@ def main(ck):
             labels=['roundtrip:generated'] + [l for l in gm.labels() if l.split(':')[0] in (
                 'mesh', 'hfield', 'texture', 'material', 'default-class', 'frame', 'replicate', 'keyframe', 'tuple',
                 'geom-adhesion', 'pair-adhesion', 'gravcomp', 'surfacevel', 'numeric', 'text', 'pair', 'exclude')])
-  ck.run_hypothesis(rt_test, st.tuples(gen_io.rich_models(max_bodies=4), mg.state_seed()), ck.budget(12, 1200),
+  ck.run_hypothesis(rt_test, st.tuples(gen_io.rich_models(max_bodies=4, memory='2M'), mg.state_seed()), ck.budget(16, 1200),
                     name='roundtrip', shrink=False)
   _tick('roundtrip-generated')
-  files = [f for f in corpus.xml_files(lib.repo) if os.path.getsize(f) < (6000 if quick else 10 ** 9)]
-  files = [files[i] for i in rng.permutation(len(files))][:ck.budget(20, 10 ** 6)]
+  files = [f for f in corpus.xml_files(lib.repo) if os.path.getsize(f) < (4000 if quick else 10 ** 9)]
+  files = [files[i] for i in rng.permutation(len(files))][:ck.budget(14, 10 ** 6)]
   crecs = []
   for f, m in corpus.iter_models(lib, files):
     if int(lib.mj_sizeModel(m)) > (1 << 20 if quick else 64 << 20):
       ck.label('corpus-skipped-large')
       continue
     try:
-      rec = c.roundtrip(corpus.rel(f), m, seed=int(rng.randint(1 << 30)), steps=m.nbody < 60)
+      rec = c.roundtrip(corpus.rel(f), m, seed=int(rng.randint(1 << 30)), steps=m.nbody < 60 and m.narena <= (4 << 20))
     except Violation as e:
       ck.violation('Violation: %s' % e, dict(model=corpus.rel(f)), bucket=e.bucket)
       continue
